@@ -1065,6 +1065,24 @@ func runC17(r *vf.Run) {
 			if tmpl, _, strArgs := withPlaceholders(rng, e); len(strArgs) > 0 {
 				cq.ArgText, cq.Args = gen.FormatQuery(tmpl, gb), strArgs
 			}
+			if qi == 9 || qi == 10 {
+				// (round 7) one placeholder number used by several comparisons: $1 twice, or $1 $2 $1
+				c0, c1 := cols[0], cols[len(cols)-1]
+				v1, v2 := "x", "y"
+				if len(ds.Vals[c0]) > 0 {
+					v1 = ds.Vals[c0][rng.Intn(len(ds.Vals[c0]))]
+				}
+				if len(ds.Vals[c1]) > 0 {
+					v2 = ds.Vals[c1][rng.Intn(len(ds.Vals[c1]))]
+				}
+				if qi == 9 {
+					e = oracle.Or(oracle.Eq(c0, v1), oracle.Eq(c1, v1))
+					cq = c17Query{Text: gen.FormatQuery(e, gb), E: e, GB: gb, ArgText: gen.FormatQuery(oracle.Or(oracle.PhEq(c0, 1), oracle.PhEq(c1, 1)), gb), Args: []string{v1}}
+				} else {
+					e = oracle.And(oracle.Eq(c0, v1), oracle.Or(oracle.Eq(c1, v2), oracle.Not(oracle.Eq(c0, v1))))
+					cq = c17Query{Text: gen.FormatQuery(e, gb), E: e, GB: gb, ArgText: gen.FormatQuery(oracle.And(oracle.PhEq(c0, 1), oracle.Or(oracle.PhEq(c1, 2), oracle.Not(oracle.PhEq(c0, 1)))), gb), Args: []string{v1, v2}}
+				}
+			}
 			f.Queries = append(f.Queries, cq)
 		}
 		spec.Files = append(spec.Files, f)
